@@ -18,6 +18,53 @@ def pick_k(node, defs, tier):
     return 1
 
 
+def twin(raw):
+    """A schema defining the same names differently: enum symbols rotated, record
+    fields reversed, fixed size + 1.  None when nothing would change."""
+    import copy
+
+    changed = [False]
+
+    def walk(x):
+        if isinstance(x, list):
+            return [walk(b) for b in x]
+        if isinstance(x, dict):
+            t = x.get("type")
+            x = dict(x)
+            if t == "enum" and len(x["symbols"]) > 1:
+                x["symbols"] = x["symbols"][1:] + x["symbols"][:1]
+                x.pop("default", None)
+                changed[0] = True
+            elif t == "fixed":
+                x["size"] = x["size"] + 1
+                changed[0] = True
+            elif t == "record":
+                fs = [dict(f, type=walk(f["type"])) for f in x["fields"]]
+                fs = [{k: v for k, v in f.items() if k != "default"} for f in fs]
+                if len(fs) > 1 and not _has_forward_refs(fs):
+                    fs = fs[::-1]
+                    changed[0] = True
+                x["fields"] = fs
+            elif t == "array":
+                x["items"] = walk(x["items"])
+            elif t == "map":
+                x["values"] = walk(x["values"])
+            return x
+        return x
+
+    out = walk(copy.deepcopy(raw))
+    return out if changed[0] else None
+
+
+def _has_forward_refs(fields):
+    """Reversing is only legal when no field refers by name to a type defined in an earlier field."""
+    import json
+
+    return any(isinstance(f["type"], str) and f["type"] not in family.PRIMS for f in fields) or any(
+        '"' + n + '"' in json.dumps([g["type"] for g in fields[i + 1:]])
+        for i, f in enumerate(fields) for n in family._names_defined(f["type"], []))
+
+
 def units(tier):
     return list(range(len(family.schemas(tier))))
 
@@ -48,6 +95,30 @@ def run_unit(i, tier, checks):
             res.evals += 1
             for v in rt.evaluate(fa, c, d, checks):
                 res.add(v)
+    # the same type names with different definitions, then the original again, in this same
+    # process: anything remembered per type name across calls shows up here (deterministically)
+    tw = twin(raw)
+    if tw is not None:
+        try:
+            tcases = rt.prepare(fa, tw)
+        except Exception:
+            tcases = []
+        if tcases:
+            tdata = alphabet.data_for(tcases[0].node, tcases[0].defs, 1, big=False)
+            for d, cost in tdata:
+                for c in tcases:
+                    res.evals += 1
+                    for v in rt.evaluate(fa, c, d, checks):
+                        v["sig"] = "after-twin:" + v["sig"]
+                        res.add(v)
+            for d, cost in alphabet.data_for(node, defs, 1, big=False):
+                for c in cases:
+                    res.evals += 1
+                    for v in rt.evaluate(fa, c, d, checks):
+                        v["sig"] = "after-twin:" + v["sig"]
+                        v["case"]["after_twin"] = tw
+                        res.add(v)
+            res.stats["twin_sequences"] += 1
     res.distinct = len(seen)
     res.stats["data"] += len(seen)
     if data:
